@@ -91,7 +91,9 @@ def zint(n):
     return '(%d)' % n
 
 
-def coq(val):
+def coq(val, nfc=True):
+    """Coq term of a value; unicode strings are NFC-normalised (what Codepage._split_unicode does first) unless the
+    value never reaches the codepage (nfc=False: a same-type / identity conversion returns the object itself)"""
     k = val[0]
     if k == 'i':
         return '(PInt %s)' % zint(int(val[1]))
@@ -108,10 +110,12 @@ def coq(val):
     if k == 'y':
         return '(PBytes %s)' % core.zl(val[1])
     if k == 'u':
-        s = unicodedata.normalize('NFC', ''.join(chr(c) for c in val[1]))
+        s = ''.join(chr(c) for c in val[1])
+        if nfc:
+            s = unicodedata.normalize('NFC', s)
         return '(PUni %s)' % core.zl([ord(c) for c in s])
     if k == 'l':
-        return '(PList [%s])' % ';'.join(coq(v) for v in val[1])
+        return '(PList [%s])' % ';'.join(coq(v, nfc) for v in val[1])
     if k == 'n':
         return 'PNone'
     raise ValueError(val)
@@ -371,6 +375,9 @@ class C43(core.Check):
             press += [['set', 'A$()', ['l', row]], ['get', 'A$()', 0], ['set', 'T$', ['y', [104, 105, 48 + rnd % 10]]],
                       ['get', 'T$', 0]]
         c.append({'cp': '437', 'mem': 8000, 'ops': press})
+        # identity conversion of a decomposed unicode string returns it unchanged (no NFC): minimised thorough alarm
+        sc([['conv', ['u', [35, 56, 110, 768, 102, 45]], 5], ['conv', ['u', [110, 768]], 0], ['conv', ['u', [110, 768]], 4],
+            ['conv', ['u', [68, 242]], 6], ['conv', ['l', [['u', [110, 768]]]], 6], ['conv', ['t', 1], 5]])
         sc([['conv', ['i', 5], 2], ['conv', ['f', fhex(-2.5)], 1], ['conv', ['t', 1], 1], ['conv', ['t', 1], 2],
             ['conv', ['i', 0], 3], ['conv', ['y', [7, 130, 65]], 5], ['conv', ['u', [233, 0x20ac]], 4],
             ['conv', ['i', 10 ** 400], 2], ['conv', ['f', 'inf'], 1], ['conv', ['f', 'nan'], 1], ['conv', ['i', 1], 4],
@@ -893,7 +900,8 @@ class C43(core.Check):
             elif kind == 'eval':
                 ops.append('OEval %s %s' % (core.zl(name_bytes(op[1])), core.zl(op[2])))
             elif kind == 'conv':
-                ops.append('OConv %s %d' % (coq(op[1]), op[2]))
+                # only unicode -> bytes (type 4) goes through the codepage and its NFC normalisation
+                ops.append('OConv %s %d' % (coq(op[1], nfc=(op[2] == 4)), op[2]))
             elif kind == 'raw':
                 ops.append('ORaw %s %s' % (core.zl(name_bytes(op[1])), core.zl(op[2])))
         return '(run (env_of "%s"%%string) st_init [%s])' % (case['cp'], ';'.join(ops))
